@@ -4,7 +4,6 @@ pkg/slip10/btccurve/secp256k1.go must be byte-identical to the internal one.
 -/
 import Iota.Gen.Secp256k1
 import Iota.Tie.Expect
-import Iota.Tie.Pow
 import Iota.Model.Secp256k1
 
 namespace Iota.Tie.C17
